@@ -18,6 +18,7 @@ statements does not matter; any other shape raises Untranslatable.
 import ast
 
 from .. import translate
+from . import normalize
 from ..translate import Untranslatable
 from .threshold import _expr, _find_func, _str_const
 
@@ -685,7 +686,7 @@ def _b(v):
 
 @translate.lifter
 def lift_tradeoff(repo):
-    tree = ast.parse(translate._read(repo, TCU))
+    tree = normalize.parse(translate._read(repo, TCU))
     h = _hull(tree)
     ip = _interp(tree)
     ix = _indices(tree)
